@@ -45,10 +45,10 @@ bool with_expr(World<T>& W, const Shape& sh, K&& k) {
     SHAPE(M_CMP | M_DIV, "c", nL == 0 && nC == 1, c0)
     return false;
   }
-  if constexpr ((MENU & (M_ASG | M_RED2 | M_IDX)) != 0) {
+  if constexpr ((MENU & (M_ASG | M_RED2 | M_IDX | M_WHR | M_CMP | M_EO)) != 0) {
     if (sh.Wl.size() == 1 && sh.Sl.empty() && sh.Ol.empty()) {
       if (s == "W") return with_indexed<R>(W, sh.Wl[0], [&](const auto& iw) { return k(iw); });
-      if constexpr ((MENU & M_ASG) != 0) {
+      if constexpr ((MENU & (M_ASG | M_WHR)) != 0) {
         if (s == "add W L" && nL == 1) return with_indexed<R>(W, sh.Wl[0], [&](const auto& iw) { return k(iw + LF(0)); });
       }
       return false;
